@@ -49,6 +49,12 @@ CHECKS = {
     text="Identities of the statement proved by TLC on every per-channel case of {0,1/4,...,1}^4 (thorough 1/8) x 11 modes x 6 operators: 0 <= co <= ao <= 1, opaque inputs reduce to B(cs,cb), transparent source over backdrop is the backdrop, opaque source over anything is the source, the eight commutative modes/operators are symmetric (and the others are not), premultiply/unpremultiply round trip. Every recorded call of Blend / Compose / BlendWith (custom function and the 5x100 Equations combinations) / Premultiply (LinSrgb, Xyz, LinLuma fully; six more Premultiply types sampled; opaque, Alpha and PreAlpha forms; f32/f64; 79 k quick / 1.03 M thorough events) must equal the model value within Arith(8) and lie in [0,1]; Alpha results are judged as the un-premultiplied PreAlpha results.",
     ref="DESIGN.md section 4 C08",
     note=TRUST + "; the range clause is false for `plus` on the W3C formulas themselves (TLC counterexample in the evidence); palette returns the unclamped colour sum with clamped alpha: known finding C08-plus-colour-unclamped; inputs are dyadic (k/4, k/8, k/256), non-dyadic inputs only for premultiply/unpremultiply; TLC does not emit the cases, the harness enumerates the same grid and the counts are compared"),
+ "C09": dict(
+    technique="published formulas as exact relations in TLA+ (Diff.tla: laws, integer-power closed forms, the complete CIEDE2000 formula of Sharma/Wu/Dalal 2005 with its hue case analysis, evaluated by TLC in 104-bit fixed point with series for atan2/sin/cos/exp and Newton sqrt/quotient, ExpSeries.tla); TLC self-validation of the reference (MC_Diff: 34 published pairs, hue-case lattice, metric laws); TLC trace validation of every recorded call (TraceDiff.tla)",
+    category="model_checking",
+    text="MC_Diff reproduces the 34 Sharma pairs to 4 decimals, proves the reference symmetric, non-negative and zero on identical colours on a grid inhabiting all 14 feasible hue-logic classes, and emits the pairs; palette's EuclideanDistance, DeltaE, ImprovedDeltaE, HyAb, Ciede2000, ImprovedCiede2000, ColorDifference, Wcag21RelativeContrast and RelativeContrast are called on these plus hue-discontinuity, achromatic, near, identical and random pairs for Lab/Lch/Luv/Oklab/Cam16UcsJab/Jmh/Srgb/LinSrgb/Luma x f32/f64 (27k events quick, 540k thorough, 31k of them CIEDE2000); TLC requires the laws exactly, closed forms to 46/18 bits, CIEDE2000 = reference to 44/16 bits relative to the coordinates, predicates = (returned ratio >= constant) exactly.",
+    ref="DESIGN.md section 4 C09",
+    note=TRUST + "; the CIEDE2000 transcription in Diff.tla (validated against Sharma's table); pairs within 2^-40 degrees (f64) / 2^-11 degrees (f32) of a 180 degree hue difference or of a mean hue of 0/360 may be on either side of the formula's jump; formulas judged for |coords| < 2^10 and chroma 0 or >= 2^-10; palette has no DeltaE for Luv; Xyz/Yxy/Lms distances and SIMD not driven"),
  "C10": dict(
     technique="exact dyadic operator semantics in TLA+ (Ops.tla: mix, lighten/saturate relative and fixed, HWB forms, hue shift/set, component arithmetic, colour schemes; capability table); TLC proves the operator algebra exhaustively on a component x factor grid (MC_Ops); TLC trace validation of every recorded call with the adjacent-group 'same call, same result' machine (TraceOps.tla)",
     category="model_checking",
@@ -73,6 +79,12 @@ CHECKS = {
     text="Every guard program up to depth 4 (thorough: 5) over 3-4 layout-compatible colour types - nested guards, then_into chains, clamped/unclamped flips, writes through the guard, restore, drop, forget, owned Vec/Box conversion - plus long simulated programs is executed on Vec, Box<[T]> and single values. After every operation TLC requires the raw arrays to be bit-identical to the specification's term evaluated with the ordinary conversion API, and address, length and capacity to be unchanged.",
     ref="DESIGN.md section 4 C13",
     note=TRUST + "; the out-of-place API is the meaning of a conversion step; absence of undefined behaviour inside the unsafe blocks as such is not decided (values, addresses, lengths only)"),
+ "C14": dict(
+    technique="published white points, primaries and cone matrices written in TLA+ (Adapt.tla) with exact 3x3 algebra in 104-bit fixed point; TLC checks the publication against itself (MC_Adapt); TLC trace validation (TraceAdapt.tla) of recorded palette constants, matrices, grey-axis conversions, CAM16 of the adopted white, adaptation matrices and trait forms, Matrix3 algebra, f32 and f64",
+    category="model_checking",
+    text="MC_Adapt: for 7 RGB spaces the derived matrix maps (1,1,1) to the white point (2^-90; ProPhoto 2^-86) and inverts; for all pairs of 16 white points x Bradford/von Kries/XYZ scaling (quick: D65/D50 hubs and diagonal) the reference adaptation maps white onto white, is the identity between equal whites, and there-and-back = I at 2^-86. Every white point type, hard-coded and code-derived RGB<->XYZ matrix of 14 spaces, the grey axis (33 / 256 levels) and white of 17 RGB standards through Xyz, Lab, Luv, Lch, Lchuv, Oklab, Oklch, Hsv, Hsl, Hwb, Hsluv, Luma and back, CAM16 J of the adopted white, adaptation_matrix and all trait forms on XYZ points there and back (quick 76 ordered white point pairs, thorough all 256), and Matrix3 then/invert/identity are judged by TLC against the published constants.",
+    ref="DESIGN.md section 4 C14",
+    note=TRUST + "; published constants as written in spec/Adapt.tla (ASTM E308 values cross-checked against palette's doc comments only); tolerance classes Need(class,t) calibrated with >= 8x margin (Oklab 1e-4 publication class because palette's M1 was recalculated for the CSS D65 chromaticity); the DCI white is reachable only through the deprecated adaptation API; known finding C14-hsluv-white-saturation"),
  "C15": dict(
     technique="exact integer hexcone model (Hexcone.tla) with containment proved by TLC on a lattice; TLC trace validation of containment, bound preservation and round trip (TraceGamut.tla) on recorded conversions of the cylinder and RGB lattices",
     category="model_checking",
@@ -91,6 +103,12 @@ CHECKS = {
     text="All 20 serializable colour structs (plus 3 harness structs of other arities) x plain/Alpha/PreAlpha x f32/f64 (u8/u16 for Rgb, Luma). Extremes in every position plus random finite values are serialized through a recording serializer (exact data-model calls incl. announced lengths), serde_json and ron (struct, named, array and holder forms). TLC requires the tree to equal Ser of the type table with alpha flattened at the same level, the JSON key set = declared fields (+alpha), depth 1, hue a bare number, no standard/white_point/meta, and bit-identical round trips (serde_json+f64: 16 ulp). Every TLC-enumerated case (all field permutations, map/seq/tuple forms, missing alpha, missing field, wrong arity, unknown field; with/without the optional-alpha helper) must end as De prescribes. as_array/as_uint must equal the cast array / packed integer. Quick: 2.6 k cases + 54 k events; thorough: 18 k cases + 1.35 M events.",
     ref="DESIGN.md section 4 C20",
     note=TRUST + "; the harness' recording Serializer/Deserializer and compact token stream as faithful serde formats; serde/serde_json/ron as the meaning of 'the format'; harness-computed ulp distance; unknown extra fields, surplus sequence elements, duplicate keys and string-keyed maps under Alpha are left open; known finding C20-alpha-struct-compact-stream"),
+ "C16": dict(
+    technique="explicit TLA+ specification of the CAM16 relations (Cam16.tla, LnExp.tla: viewing conditions as an opaque token, exact dyadic products, ln/exp/sin/cos series); TLC enumerates the lattice of viewing conditions x partial types and checks the reference against itself (MC_Cam16); TLC trace validation of recorded palette conversions (TraceCam16.tla)",
+    category="model_checking",
+    text="TLC enumerates the lattice of 4320 viewing conditions x 6 partial types (emitted for replay) and checks the reference against itself: UCS relations and published inverses mutually inverse on a grid, series against tabulated values, published attribute definitions imply the parameter-free invariants, every verdict accepts exact and rejects perturbed events. Recorded palette conversions for f32/f64 (16.8k events quick, 318k thorough) are judged by TLC on exact values: XYZ round trips through Cam16 and the six partial types relative to the XYZ magnitude (2^-42 f64 / 2^-13 f32); black to black exactly; from_full is the bit-identical projection, from_xyz and into_full agree with the full colour; s^2 Q = 10^4 M and the two-colour ratio invariants M1 C2 = M2 C1, Q1^2 J2 = Q2^2 J1; adopted white J = 100; CAM16-UCS forward and inverse relations (J' rational, M' by ln/exp series, polar by sin/cos) and round trips.",
+    ref="DESIGN.md section 4 C16 and section 5",
+    note=TRUST + "; not decided: agreement of the forward model (J, C, h from XYZ) with Li et al.'s equations, whose exponents are computed real numbers; judged domain: non-negative CAT16 cone responses, or one negative response <= 1/16 of the smaller of the other two (other inputs, e.g. negative luminance where CAM16 is undefined, are recorded and only checked for panics); the harness flag marking the adopted white"),
  "C17": dict(
     technique="TLA+ lane model (Simd.tla: SIMD colour = function lane -> scalar colour, Pack/Unpack as transposition, lifted operations, masks as functions lane -> BOOLEAN, named agreement relation); TLC checks pack/unpack, select, De Morgan and IEEE comparison laws for 2/4/8 lanes and enumerates the lane groupings (all class pairs for 2 lanes, Latin squares for 4 and 8), replayed on the real wide conversions; TLC trace validation of every lane, pack, mask, operator and f32-vs-f64 event",
     category="model_checking",
